@@ -15,7 +15,7 @@ Inductive edesc :=
 | DFilter (mode : Z) (cutoff res : Z) (mix : Z)   (* mode 0..3; f64, f64; f32 *)
 | DEq (kind : Z) (freq : Z) (gain : Z) (q : Z)    (* kind 0..2; f64; f32 (dB); f64 *)
 | DComp (thr ratio att rel : Z) (mk mix : Z)      (* f64 x4 (att, rel = Duration::as_secs_f64); f32 x2 *)
-| DDelay (secs : Z) (fb mix : Z) (fx : list edesc)(* delay_time.as_secs_f64(); f32 dB; f32 *)
+| DDelay (nanos : Z) (fb mix : Z) (fx : list edesc)(* delay_time.as_nanos(); f32 dB; f32 *)
 | DReverb (fb damp width : Z) (mix : Z).          (* f64 x3; f32 *)
 
 Inductive case :=
@@ -85,8 +85,9 @@ Section Compile.
                     (f64_to_f32 (comp_speed (lib64 tab t_exp) (f64_of_bits att) dt))
                     (f64_to_f32 (comp_speed (lib64 tab t_exp) (f64_of_bits rel) dt))
                     (eff (f32_of_bits mk)) (eff (f32_of_bits mix))
-    | DDelay secs fb mix fx =>
-        EDelay (usize_of (mul64 (f64_of_bits secs) (Z64 sr)))
+    | DDelay nanos fb mix fx =>
+        (* delay_time_frames (integer arithmetic since the repair of F35); EDelay's init applies max 1 *)
+        EDelay (Z.to_nat (Z.min (2 ^ 64 - 1) (nanos * sr / 1000000000)))
                (db_amp powf10 (eff (f32_of_bits fb))) (eff (f32_of_bits mix)) (map compile fx)
     | DReverb fb damp width mix =>
         EReverb (sizes sr comb_tunings) (sizes sr allpass_tunings)
